@@ -42,7 +42,7 @@ describe('C13',
          'operand is the analytic value of that slot and the second the approximation, every result is OR-ed '
          'into the returned flag; (tolviol) get_tol_violation returns |x-ref| quantities taken at one index; '
          '(tols) abs/rel tolerances are never swapped on the way down; (iter) a pair is skipped only when '
-         'allowed; (record) one J_fd and one step per (pair, step), J_fd taken from that step; (labels) the '
+         'allowed; (select) Problem.check_partials skips a component only for a documented reason; (record) one J_fd and one step per (pair, step), J_fd taken from that step; (labels) the '
          'printed fwd/rev/fd labels name the operand actually printed.  Does not decide numerical accuracy of '
          'the approximations nor the contents of the analytic Jacobians.',
          ['audit sites are the functions of the Subjac hierarchy that mention the key "uncovered_nz"',
@@ -2384,6 +2384,133 @@ def iter_derivs(repo, out):
         out.unsure(fn, loop, str(ex))
 
 
+# =========================================================================== C13.select
+def _nesting_guard(st, loop, atom_of):
+    """Condition (If nesting only) under which statement st is reached inside one iteration of loop."""
+    parts = []
+    cur = st
+    while cur is not loop:
+        par = cur._parent
+        if isinstance(par, ast.If):
+            f = boolx.from_ast(par.test, atom_of)
+            parts.append(f if cur in par.body else boolx.Not(f))
+        elif par is not loop:
+            raise AnalysisError(f'unsupported nesting {type(par).__name__} around `{astx.src(st)}`')
+        cur = par
+    return boolx.And(*parts) if parts else boolx.TRUE
+
+
+@rule('C13.select', floor=3)
+def select(repo, out):
+    """Problem.check_partials leaves a component out only for a documented reason and keeps every result."""
+    ctx = Ctx(repo.func(PROB, 'Problem.check_partials'))
+    fn, g = ctx.fn, ctx.g
+    calls = [(n, c) for n in g.where(lambda n: n.kind == 'stmt') for c in n.calls()
+             if astx.callee_attr(c) == 'check_partials' and astx.path(astx.receiver(c)) not in ('self', 'super()')]
+    if len(calls) != 1 or not isinstance(astx.receiver(calls[0][1]), ast.Name):
+        raise AnalysisError('Problem.check_partials: the per-component check_partials call was not found')
+    cnode, call = calls[0]
+    comp = astx.receiver(call).id
+    loop = astx.enclosing(cnode.ast, (ast.For,))
+    if loop is None or not (isinstance(loop.target, ast.Name) and loop.target.id == comp):
+        out.unsure(fn, call, f'`{comp}` is not the variable of a loop over the components')
+        return
+    hdr = g.nodes_of(loop)[0]
+
+    def empty_len(e):
+        """('noin'|'noout', True) if e is len(comp.<meta>['input'|'output']) ; else None."""
+        if isinstance(e, ast.Call) and isinstance(e.func, ast.Name) and e.func.id == 'len' and len(e.args) == 1:
+            a = e.args[0]
+            if isinstance(a, ast.Subscript) and astx.const_str(a.slice) in ('input', 'output') and \
+                    (astx.path(a.value) or '').startswith(comp + '.'):
+                return 'noin' if astx.const_str(a.slice) == 'input' else 'noout'
+        return None
+
+    def atom_of(e):
+        if isinstance(e, ast.Attribute) and isinstance(e.value, ast.Name) and e.value.id == comp and \
+                e.attr == '_no_check_partials':
+            return 'nocheck'
+        if isinstance(e, ast.Name):
+            u = ctx.unique_def(e.id, hdr)
+            if u is not None and isinstance(u[0], ast.Call) and astx.callee_attr(u[0]) == 'env_truthy':
+                return 'force'
+            return None
+        k = empty_len(e)
+        if k:
+            return ('not', k)                       # `if len(...)`: true when NOT empty
+        if isinstance(e, ast.Compare) and len(e.ops) == 1:
+            l, op, r = e.left, type(e.ops[0]), e.comparators[0]
+            if empty_len(r) and op in _SWAP:
+                l, op, r = r, _SWAP[op], l
+            k = empty_len(l)
+            if k and isinstance(r, ast.Constant) and not isinstance(r.value, bool) and isinstance(r.value, int):
+                if (r.value, op) in ((0, ast.Eq), (0, ast.LtE), (1, ast.Lt)):
+                    return k
+                if (r.value, op) in ((0, ast.NotEq), (0, ast.Gt), (1, ast.GtE)):
+                    return ('not', k)
+            return None
+        if isinstance(e, ast.Call) and isinstance(e.func, ast.Name) and e.func.id == 'isinstance' and \
+                len(e.args) == 2 and isinstance(e.args[0], ast.Name) and e.args[0].id == comp and \
+                isinstance(e.args[1], ast.Name):
+            if e.args[1].id == 'ExplicitComponent':
+                return 'expl'
+            if e.args[1].id == 'ImplicitComponent':
+                return ('not', 'expl')
+            return None
+        if isinstance(e, ast.Call) and astx.callee_attr(e) == 'match_includes_excludes' and e.args and \
+                astx.path(e.args[0]) == comp + '.pathname':
+            return 'match'
+        return None
+
+    A = boolx.A
+    allowed = boolx.Or(boolx.And(A('nocheck'), boolx.Not(A('force'))), A('noout'),
+                       boolx.And(A('noin'), A('expl')), boolx.Not(A('match')))
+    atoms = ['nocheck', 'force', 'noout', 'noin', 'expl', 'match']
+    try:
+        pre = [s for s in astx.walk_stmts(loop.body) if isinstance(s, (ast.Continue, ast.Break)) and
+               s.lineno < cnode.ast.lineno]
+        skip = boolx.Or(*[_nesting_guard(s, loop, atom_of) for s in pre]) if pre else boolx.FALSE
+        notchecked = boolx.Or(boolx.Not(_nesting_guard(cnode.ast, loop, atom_of)), skip)
+        okk, nrows, cex = boolx.implies(notchecked, allowed, extra_atoms=atoms)
+        if not okk:
+            out.bad(fn, loop, 'a component that has (of, wrt) pairs to check is silently left out of check_partials '
+                    '(allowed reasons: _no_check_partials without the override, no outputs, an EXPLICIT component '
+                    'without inputs, excluded by includes/excludes): ' + boolx.fmt_val(cex), key='component-skipped')
+        else:
+            out.ok(fn, loop, f'a component is skipped only for a documented reason [{nrows} rows]')
+    except AnalysisError as ex:
+        out.unsure(fn, loop, str(ex))
+    # the component's result reaches the returned dict
+    rets = [s for s in ctx.stmts() if isinstance(s, ast.Return) and isinstance(s.value, ast.Name)]
+    tg = cnode.ast.targets[0] if isinstance(cnode.ast, ast.Assign) and len(cnode.ast.targets) == 1 else None
+    res = tg.elts[0].id if isinstance(tg, ast.Tuple) and tg.elts and isinstance(tg.elts[0], ast.Name) else \
+        tg.id if isinstance(tg, ast.Name) else None
+    if not rets or res is None:
+        out.unsure(fn, call, 'result of the per-component check not recognised')
+        return
+    data = rets[-1].value.id
+
+    def keeps(n):
+        if n.kind != 'stmt':
+            return False
+        for c in n.calls():
+            if astx.callee_attr(c) == 'update' and astx.path(astx.receiver(c)) == data and c.args and \
+                    res in names(c.args[0]):
+                return True
+        a = n.ast
+        return isinstance(a, ast.Assign) and any(isinstance(t, ast.Subscript) and astx.path(t.value) == data
+                                                 for t in a.targets) and res in names(a.value)
+    ups = g.where(keeps)
+    w = find_path(g, g.normal_succ(cnode), [hdr, g.exit], avoid=ups)
+    if w is not None or not ups:
+        out.bad(fn, call, f'the data of a checked component can be dropped before it is merged into the returned '
+                f'`{data}`: ' + g.fmt_path(w), key='result-dropped')
+    else:
+        out.ok(fn, ups[0].ast, f'every checked component is merged into the returned `{data}`')
+    if all(ctx.rd.defs(ctx.at(r), data) for r in rets) and all(r.value.id == data for r in rets):
+        out.ok(fn, rets[-1], f'`{data}` is what is returned')
+
+
 # =========================================================================== C13.record
 def _appends(ctx, pred):
     """[(node, call)] of `<recv>.append(x)` statements whose receiver satisfies pred(recv)."""
@@ -2960,6 +3087,13 @@ selftest(
     Mutant('tolviol-violation-not-at-index', ARR, 'max_error = diff.flat[max_error_idx]', 'max_error = diff.mean()', 'C13.tolviol'),
     Mutant('tolviol-entrywise-abs-other-index', ARR, '    abs_at_max = abs_error.flat[max_error_idx]\n',
            '    j = np.argmax(abs_error)\n    abs_at_max = np.abs(x.flat[j] - ref.flat[j])\n', 'C13.tolviol'),
+    # ---- select (round-2 seed: state-only implicit components silently skipped)
+    Mutant('select-seed-no-inputs-skips-implicit', PROB, "            if (len(comp._var_allprocs_abs2meta['input']) == 0 and\n                    isinstance(comp, ExplicitComponent)):\n                continue",
+           "            if len(comp._var_allprocs_abs2meta['input']) == 0:\n                continue", 'C13.select'),
+    Mutant('select-no-inputs-or-explicit', PROB, "            if (len(comp._var_allprocs_abs2meta['input']) == 0 and\n                    isinstance(comp, ExplicitComponent)):",
+           "            if (len(comp._var_allprocs_abs2meta['input']) == 0 or\n                    isinstance(comp, ExplicitComponent)):", 'C13.select'),
+    Mutant('select-includes-inverted', PROB, 'if not match_includes_excludes(comp.pathname, includes, excludes):\n                continue\n\n            comp_stream', 'if match_includes_excludes(comp.pathname, includes, excludes):\n                continue\n\n            comp_stream', 'C13.select'),
+    Mutant('select-result-only-when-printing', PROB, "            partials_data.update(partials)\n", "            if out_stream is not None:\n                partials_data.update(partials)\n", 'C13.select'),
     Mutant('tolviol-signed-error', ARR, 'abs_error = np.abs(x - ref)', 'abs_error = x - ref', 'C13.tolviol'),
     Mutant('tolviol-difference-of-magnitudes', ARR, 'abs_error = np.abs(x - ref)', 'abs_error = np.abs(x) - np.abs(ref)', 'C13.tolviol'),
     Mutant('iter-delete-declared-pair', SYSTEM, '        if key in nondep_derivs and not above_tol:\n            del derivatives[key]\n            continue',
@@ -3044,6 +3178,10 @@ selftest(
          also=[(SYSTEM, 'totals,\n                                          abs_error_tol, rel_error_tol)', 'totals,\n                                          atol=abs_error_tol, rtol=rel_error_tol)'),
                (SYSTEM, 'if key in nondep_derivs and not above_tol:', 'if not above_tol and key in nondep_derivs:'),
                (SYSTEM, 'if show_only_incorrect and not (above_tol or inconsistent):', 'if show_only_incorrect and not above_tol and not inconsistent:')]),
+    Twin('twin-select-reordered-guards', PROB, "            if (len(comp._var_allprocs_abs2meta['input']) == 0 and\n                    isinstance(comp, ExplicitComponent)):\n                continue",
+         "            if isinstance(comp, ExplicitComponent):\n                if not len(comp._var_allprocs_abs2meta['input']) > 0:\n                    continue"),
+    Twin('twin-select-not-implicit', PROB, "            if (len(comp._var_allprocs_abs2meta['input']) == 0 and\n                    isinstance(comp, ExplicitComponent)):",
+         "            if not (isinstance(comp, ImplicitComponent) or len(comp._var_allprocs_abs2meta['input'])):"),
     Twin('twin-tolviol-flipped-compare', ARR, 'np.any(diff > 0.)', 'np.any(0 < diff)'),
     Twin('twin-slots-or-assignment', SYSTEM, _TV_REV + '\n                above_tol |= above', _TV_REV + '\n                above_tol = above_tol or above'),
     Twin('twin-slots-temporaries', SYSTEM, _TV_REV, 'tv, vals, above, abs_errs.reverse, rel_errs.reverse = \\\n                    get_tol_violation(Jreverse, Jfd, atol, rtol)\n                errs.reverse = tv\n                err_vals.reverse = vals'),
